@@ -1,7 +1,7 @@
 (* C06 — truncated or mistyped input is rejected, never decoded into made-up data. Statements only. *)
 From Coq Require Import List NArith ZArith.
 From TarsV Require Import Base.Hex Codec.Wire Codec.Skip Codec.Prim Codec.PrimProofs Codec.GenCodec Codec.Corr Codec.GenProofs
-  Codec.RoundTrip Codec.RoundTripProofs Codec.PrefixProofs Codec.PrefixGenProofs Codec.RoundTripExamples Codec.CorrT Gen.Schemas.
+  Codec.RoundTrip Codec.RoundTripProofs Codec.PrefixProofs Codec.PrefixGenProofs Codec.RoundTripExamples Codec.Damage Codec.DamageProofs Codec.TypedProofs Codec.CanonExamples Codec.CorrT Gen.Schemas.
 From TarsV Require Xlate.ReaderSliceEquiv.
 Import ListNotations.
 Open Scope N_scope.
@@ -168,9 +168,67 @@ Theorem C06_inflated_string_rejected : forall e k n sid fds1 fd fds2 vs1 (four :
   tfin n e (TStruct sid) = true -> (tneed n e (TStruct sid) + k <= 64)%nat ->
   decode e sid (enc_fields e vs1 fds1 ++ (if four then head tSTR4 (ftag fd) ++ be 4 l else head tSTR1 (ftag fd) ++ [l]) ++ r) = DErr.
 Proof. exact PrefixProofs.inflated_string_rejected. Qed.
-(* inflation of a length or count nested deeper inside a valid encoding (inside vector elements, map values, nested
-   structs) is not stated as a theorem; it is decided on every run by the correspondence + monitors (every string
-   length and every list/map/simple-list count of every sampled encoding inflated) *)
+(* the hand-written table of admissible wire types (adm) is exactly the acceptance set of the decoder model: for every
+   non-struct type shape and each of the 16 wire type codes, a field of that wire type followed by a zero body is
+   refused iff adm says "not admissible" (by evaluation; with C06_inadmissible_member the table cannot drift from the
+   model's readers, which are tied to the Go readers by Xlate/ReaderEquiv.v and the correspondence) *)
+Theorem C06_adm_is_acceptance :
+  forallb (fun t => forallb (fun wt => Bool.eqb (adm_probe t wt) (adm t wt && negb (wt =? tSE))) (map N.of_nat (seq 0 16))) adm_types = true.
+Proof. exact DamageProofs.adm_is_acceptance. Qed.
+
+(* NEVER MADE-UP DATA, typing half: whatever the input (any bytes < 256, shorter than 2^31) and whatever the target
+   held, a value the decoder returns is a value of the struct's IDL type - every integer within the range of its Go
+   type (no wrong sign extension, no wrap), float bit patterns of the member's width, strings and byte vectors no
+   longer than the input, vectors and maps with a count the input can hold, fixed arrays of exactly the declared
+   length, struct members typed by the schema, recursively - and the unread rest is a suffix of the input. Every
+   wf_schema environment with typed defaults and expressible array lengths, every struct type with a finite type graph. *)
+Theorem C06_decode_typed : forall e k, wf_schema k e -> defaults_typed e -> arrs_ok e -> forall n sid prior bs v r,
+  (S k <= 64)%nat -> tfin n e (TStruct sid) = true -> (tneed n e (TStruct sid) + k <= 64)%nat ->
+  bytes_ok bs -> lenok bs -> decode_into e sid prior bs = DOk v r -> has_type e (TStruct sid) v /\ sfx r bs.
+Proof. exact TypedProofs.decode_typed. Qed.
+Theorem C06_code_schemas_decode_typed : forall sid prior bs v r, fits_model sid = true -> bytes_ok bs -> lenok bs ->
+  decode_into env0 sid prior bs = DOk v r -> has_type env0 (TStruct sid) v /\ sfx r bs.
+Proof. exact CanonExamples.env0_decode_typed. Qed.
+(* the scalar readers alone, any bytes: the value is in the member type's range *)
+Theorem C06_scalar_typed : forall f tag req t prior bs v r, scalar_ty t = true -> sc_typed t prior -> bytes_ok bs -> lenok bs ->
+  dec_scalar f tag req t prior bs = DOk v r -> sc_typed t v /\ sfx r bs.
+Proof. exact TypedProofs.dec_scalar_typed. Qed.
+
+(* DAMAGE AT ANY DEPTH (Codec/Damage.v). spot: a field under the member's tag that the reader of the member's IDL
+   type refuses on its own - a wire type it does not accept (the single-field wire-type substitution), or a string
+   length / byte-vector count / list count / map count / fixed-array count announcing more than is left - followed by
+   anything. dmg: the encoding of a member in which such a spot sits at any depth - in the member itself, in an
+   element of a vector or fixed array (after any number of normally encoded elements, under any count that reaches
+   it), in a key or a value of a map, in a member of a nested struct, recursively - everything in front of the spot
+   encoded normally. Every wf_schema environment, every struct type with a finite type graph: the members in front
+   encoded normally, then a member damaged at any depth, then anything: rejected. This closes the clauses
+   "every inflation of an embedded length" and "every substitution of one field by a field of an inadmissible wire
+   type" for nested positions, which were decided by the correspondence only. *)
+Theorem C06_damage_rejected : forall e k n sid fds1 fd fds2 vs1 bs',
+  wf_schema k e -> (S k <= 64)%nat -> fields_of e sid = fds1 ++ fd :: fds2 ->
+  Forall2 (fun fd x => has_type e (fty fd) x) fds1 vs1 -> dmg e (ftag fd) (fty fd) bs' ->
+  tfin n e (TStruct sid) = true -> (tneed n e (TStruct sid) + k <= 64)%nat ->
+  decode e sid (enc_fields e vs1 fds1 ++ bs') = DErr.
+Proof. exact DamageProofs.damage_rejected. Qed.
+(* member level, any target that is admissible for the member, fuel linear in the bytes *)
+Theorem C06_damaged_member : forall e k, wf_schema k e -> forall tag t bs, dmg e tag t bs ->
+  forall m f req d prior, tfin m e t = true -> ty_nest k e t = true -> tag < 256 ->
+  (d <> None -> scalar_ty t = true) -> prior_ok e t d prior ->
+  (tneed m e t + k + 4 * length bs + 3 <= f)%nat -> dec_var f e tag req t prior bs = DErr.
+Proof. exact DamageProofs.dmg_rejected. Qed.
+Theorem C06_code_schemas_damage_rejected : forall sid fds1 fd fds2 vs1 bs', fits_model sid = true ->
+  fields_of env0 sid = fds1 ++ fd :: fds2 -> Forall2 (fun fd x => has_type env0 (fty fd) x) fds1 vs1 ->
+  dmg env0 (ftag fd) (fty fd) bs' -> decode env0 sid (enc_fields env0 vs1 fds1 ++ bs') = DErr.
+Proof. exact CanonExamples.env0_damage_rejected. Qed.
+(* the hypotheses are satisfiable: a wire-type substitution two struct levels down inside the second element of a
+   vector, and a string length inflated in a map value of a nested struct *)
+Theorem C06_damage_examples :
+  dmg d_schema 2 (TVec (TStruct 1)) d_bytes1 /\ dmg d_schema 2 (TVec (TStruct 1)) d_bytes2 /\
+  decode d_schema 0 (enc_fields d_schema [VInt 1] [ {| ftag := 0; freq := true; fty := TI32; fdef := None |} ] ++ d_bytes1) = DErr /\
+  decode d_schema 0 (enc_fields d_schema [VInt 1] [ {| ftag := 0; freq := true; fty := TI32; fdef := None |} ] ++ d_bytes2) = DErr.
+Proof. exact (conj DamageProofs.d_damaged1 (conj DamageProofs.d_damaged2 DamageProofs.d_rejected)). Qed.
+(* not covered by dmg: a damaged spot behind unknown fields inside a nested value, and damage to the inner head of a
+   SimpleList; those stay with the correspondence + monitors *)
 
 Print Assumptions C06_fixed_width_exact. Print Assumptions C06_fixed_width_truncated.
 Print Assumptions C06_string_exact. Print Assumptions C06_string_truncated.
@@ -190,3 +248,11 @@ Print Assumptions C06_array_count_member.
 Print Assumptions C06_inflated_string_rejected.
 Print Assumptions C06_inadmissible_member.
 Print Assumptions C06_inadmissible_rejected.
+Print Assumptions C06_damage_rejected.
+Print Assumptions C06_damaged_member.
+Print Assumptions C06_code_schemas_damage_rejected.
+Print Assumptions C06_damage_examples.
+Print Assumptions C06_decode_typed.
+Print Assumptions C06_code_schemas_decode_typed.
+Print Assumptions C06_scalar_typed.
+Print Assumptions C06_adm_is_acceptance.
